@@ -7,8 +7,10 @@ import JadeModel.Model.System
 fault-free submission has no missing job") need two things the real code also does in every round and
 that the history replay checks on fault-free executions (modes plain/busy of the system suite):
 
-* `collectedAll`: when a pass of `_update_completed_jobs` ends, the result file of every batch this
-  round no longer believes active has been moved (`ResultsAggregator.process_results` globs all files);
+* `collectedAll`: when a pass of `_update_completed_jobs` ends — and when the loop ends, which the code
+  does only after at least one pass (`need_to_rerun = True` initially) — the result file of every batch
+  this round no longer believes active has been moved (`ResultsAggregator.process_results` globs all
+  files, and a batch the scheduler poll reported as ended wrote its last row before it ended);
 * `roundDone`: when the round persists, every NOT_SUBMITTED job without remaining blockers was handed
   over in this round, unless the node limit is reached (C07 `submitLoop_unblocked`).
 
@@ -47,6 +49,7 @@ def extraGuard (s : Sys) (op : Op) : Bool :=
   !op.faulty &&
   match op with
   | .passEnd p _ => (match getSub s p with | some x => collectedAll s x | none => true)
+  | .collectDone p => (match getSub s p with | some x => collectedAll s x | none => true)
   | .persist p => (match getSub s p with | some x => roundDone s.sc x | none => true)
   | .skipPersist p => (match getSub s p with | some x => roundDone s.sc x | none => true)
   | _ => true
